@@ -60,8 +60,9 @@ package qbft
 //@ ensures !r1 ==> r0 == [32]byte{}
 //@ canary r1
 
+// (C14: receivers index values by the SAME deterministic hash the proposer signed: hashProto of the decoded value)
 //@ func valuesByHash
-//@ props C05
+//@ props C05 C14
 //@ pure
 //@ ensures r1 == nil ==> forallk(h, r0, exists(k, 0, len(values), r0[h] == values[k] && res(1, values[k].UnmarshalNew()) == nil &&
 //@+   res(1, hashProto(res(0, values[k].UnmarshalNew()))) == nil && res(0, hashProto(res(0, values[k].UnmarshalNew()))) == h))
